@@ -18,7 +18,7 @@
                         S13c are exactly the schedules excluded by it (c18_witnesses_are_overlaps). *)
 From RipV Require Import Base.Prelude Model.Authority Proofs.AuthorityInv Proofs.AuthorityLive Proofs.AuthorityTake Proofs.AuthorityProofs.
 From RipV Require Import Proofs.AuthorityFair Proofs.AuthorityRounds.
-From RipV Require Import Model.AuthorityGrace Proofs.AuthorityGraceProofs.
+From RipV Require Import Model.AuthorityGrace Proofs.AuthorityGraceProofs Proofs.AuthorityBridge.
 
 (* ---- exclusive create: no dead leftovers (no files at all), ANY number of contenders, ANY crash-free schedule *)
 Theorem c18_mutex_no_leftovers : forall (ps : list proc) (es : list event),
@@ -358,3 +358,21 @@ Theorem c18_server_timer_needs_absent_reset :
                          (fst (timer_run server_table_unfixed None server_vanished_obs)) j 2).
 Proof. exact server_timer_needs_absent_reset. Qed.
 Print Assumptions c18_server_timer_needs_absent_reset.
+
+(* ---- the two models of the client loop agree.  One iteration of the DClient process of Model/Authority.v (program counters,
+   one file-system operation per step, started at the top of its loop, running alone, environment bits: ping answer and
+   "timer fired" := what the timer state machine of Model/AuthorityGrace.v says) ends — after at most 12 steps — at the top
+   of the loop again (Done if the endpoint answered) with exactly the files client_poll computes.  Hypothesis = the LTS's
+   assume_grace: when the timer fires the creator of the lock is dead.  (lockf_of forgets the ghost instance.) *)
+Theorem c18_client_models_agree :
+  forall (g : gtable) (ps : list proc) (me : pid) (last : N) (st : cstate) (p : pollin),
+  pi_vanish p = false ->
+  (snd (timer g (cs_since st) (pi_now p) (poll_seen p)) = true ->
+     forall f, pi_lock p = Some f -> pid_alive ps (lf_owner f) = false) ->
+  exists (n : nat) (last' : N), (n <= 12)%nat /\
+    solo n (obits (pi_reach p) (snd (timer g (cs_since st) (pi_now p) (poll_seen p))))
+         (mkst (lockf_of (pi_lock p)) (pi_meta p) MAbsent ps) (cli me RdMeta last)
+    = (mkst (lockf_of (po_lock (client_poll g (pid_alive ps) st p))) (po_meta (client_poll g (pid_alive ps) st p)) MAbsent ps,
+       cli me (match po_act (client_poll g (pid_alive ps) st p) with AOk => Done | _ => RdMeta end) last').
+Proof. exact client_models_agree. Qed.
+Print Assumptions c18_client_models_agree.
